@@ -1,7 +1,7 @@
 (* Entry.v — dispatch from a harness case (an S-expression) to a model function; result as an S-expression. *)
 From Coq Require Import List Arith NArith ZArith Bool Strings.Byte.
 From Coq Require Strings.String.
-From DX Require Import Bytes Sx Res Codec Text Json Sections Header Stream Reader Writer Wire.
+From DX Require Import Bytes Sx Res Codec Text Json Sections Header Stream Reader Writer Wire Hunks Dom DomWire.
 Import ListNotations.
 Import String.StringSyntax.
 Local Open Scope string_scope.
@@ -13,7 +13,7 @@ Definition exn_name (e : exn) : String.string :=
   | EUnicodeEncode => "UnicodeEncodeError" | EUnicodeDecode => "UnicodeDecodeError" | EValue => "ValueError"
   | EKey => "KeyError" | EOverflow => "OverflowError" | EAttribute => "AttributeError"
   | EUnboundLocal => "UnboundLocalError" | ERecursion => "RecursionError" | EIndex => "IndexError"
-  | ELibContent => "DiffXContentError" | ELibOrder => "DiffXSectionOrderError"
+  | ELibParse => "DiffXParseError" | ELibContent => "DiffXContentError" | ELibOrder => "DiffXSectionOrderError"
   | ELibOptionValue => "DiffXOptionValueError" | ELibChoice => "DiffXOptionValueChoiceError"
   | ELibUnknownOption => "DiffXUnknownOptionError"
   | EUnmodelled => "UNMODELLED" | EOracleMiss => "ORACLE-MISS"
@@ -145,6 +145,70 @@ Definition run_write_read (args : list sx) : sx :=
   | _ => bad_case "write_read arity"
   end.
 
+(* (hunks (#line ...) bool) *)
+Definition sx_of_side (s : side) : sx :=
+  Li [sx_of_option sx_of_Z (sd_first s); sx_of_option sx_of_Z (sd_last s); sx_of_Z (sd_num s); sx_of_Z (sd_changed s); sx_of_Z (sd_start s)].
+Definition sx_of_hunk (h : hunk) : sx :=
+  Li [sx_of_option sx_of_bytes (h_context h); sx_of_side (h_orig h); sx_of_side (h_mod h); sx_of_Z (h_pre h); sx_of_Z (h_post h)].
+Definition run_hunks (args : list sx) : sx :=
+  match args with
+  | [ls; ig] =>
+      match sx_list sx_bytes ls, sx_bool ig with
+      | Some ls, Some ig =>
+          match get_unified_diff_hunks ls ig with
+          | HunksOk hs n d i => tagged "ok" [sx_of_list sx_of_hunk hs; sx_of_Z n; sx_of_Z d; sx_of_Z i]
+          | Malformed l n eof => tagged "malformed" [Hex l; sx_of_Z n; sx_of_bool eof]
+          end
+      | _, _ => bad_case "hunks args"
+      end
+  | _ => bad_case "hunks arity"
+  end.
+
+(* (dom_write tree) ; (dom_read #data oracle) ; (dom_roundtrip tree oracle) ; (dom_reserialise #data oracle) ; (stats tree) *)
+Definition run_dom_write (args : list sx) : sx :=
+  match args with
+  | [t] => match sx_tree t with Some t => sx_of_res sx_of_bytes (dom_write t) | None => bad_case "tree" end
+  | _ => bad_case "dom_write arity"
+  end.
+Definition run_dom_read (args : list sx) : sx :=
+  match args with
+  | [d; o] => match sx_bytes d, sx_oracle o with
+              | Some d, Some o => sx_of_res sx_of_tree (dom_read o d)
+              | _, _ => bad_case "dom_read args" end
+  | _ => bad_case "dom_read arity"
+  end.
+Definition run_dom_roundtrip (args : list sx) : sx :=
+  match args with
+  | [t; o] =>
+      match sx_tree t, sx_oracle o with
+      | Some t, Some o =>
+          match dom_write t with
+          | Err e => sx_of_exn e
+          | Ok b => Li [sym "ok"; Hex b; sx_of_res sx_of_tree (dom_read o b)]
+          end
+      | _, _ => bad_case "dom_roundtrip args"
+      end
+  | _ => bad_case "dom_roundtrip arity"
+  end.
+Definition run_dom_reserialise (args : list sx) : sx :=
+  match args with
+  | [d; o] =>
+      match sx_bytes d, sx_oracle o with
+      | Some d, Some o =>
+          match dom_read o d with
+          | Err e => sx_of_exn e
+          | Ok t => Li [sym "ok"; sx_of_tree t; sx_of_res sx_of_bytes (dom_write t)]
+          end
+      | _, _ => bad_case "dom_reserialise args"
+      end
+  | _ => bad_case "dom_reserialise arity"
+  end.
+Definition run_stats (args : list sx) : sx :=
+  match args with
+  | [t] => match sx_tree t with Some t => sx_of_res sx_of_tree (tree_stats t) | None => bad_case "tree" end
+  | _ => bad_case "stats arity"
+  end.
+
 Definition run_json_dump (args : list sx) : sx :=
   match args with
   | [j] => match sx_json j with Some j => sx_of_res sx_of_bytes (json_dump j) | None => bad_case "json" end
@@ -153,7 +217,9 @@ Definition run_json_dump (args : list sx) : sx :=
 
 Definition table : list (String.string * (list sx -> sx)) :=
   [ ("split_lines", run_split_lines); ("codec", run_codec); ("newline_for", run_newline_for); ("guess", run_guess);
-    ("read", run_read); ("header", run_header); ("write", run_write); ("write_read", run_write_read); ("json_dump", run_json_dump) ].
+    ("read", run_read); ("header", run_header); ("write", run_write); ("write_read", run_write_read); ("json_dump", run_json_dump); ("hunks", run_hunks);
+    ("dom_write", run_dom_write); ("dom_read", run_dom_read); ("dom_roundtrip", run_dom_roundtrip);
+    ("dom_reserialise", run_dom_reserialise); ("stats", run_stats) ].
 
 Fixpoint dispatch (t : list (String.string * (list sx -> sx))) (name : bytes) (args : list sx) : sx :=
   match t with
